@@ -61,7 +61,7 @@ def cases(draw):
         if searchy and draw(st.integers(0, 1)) == 0 and m.accepts_value(t, k, "*"):
             f[k] = draw(st.sampled_from(["*", "*", ">"]))
             continue
-        f[k] = draw(st.sampled_from(["x", "x_y", "x.b", "y", "x?y", "x?task=rig", "x#1", "x y", "e\u0301", "\u00e9", "x\\y", "A\u030a", ".x", ".x.b"])) if spec.free else draw(gens.concrete_value(spec, digits_dense=True))
+        f[k] = draw(st.sampled_from(["x", "x_y", "x.b", "y", "x?y", "x?task=rig", "x#1", "x y", "e\u0301", "\u00e9", "x\\y", "A\u030a", ".x", ".x.b", "{x}", "x{", "{0}", "x}y{", "%s", "x%d"])) if spec.free else draw(gens.concrete_value(spec, digits_dense=True))
     ps = pieces(pm, t, f)
     labels = []
     rootkind = "own"
